@@ -6,7 +6,8 @@
 #include META_TYPES
 #include "meta.h"
 const char *M_BLK; size_t M_LEN, M_KO, M_KE, M_VE, M_G, M_T, A_KE; int M_HASVAL;
-#include META_INC
+#include META_ITER_INC
+#include META_CONT_INC
 
 static char *mk_block(void)
 {
